@@ -122,10 +122,11 @@ def classes():
         """user-style CLOCKED block that drives a pad (bidirectional wire, InOut port) with prepare(): a free running
         counter wider than the pad (step may be negative), optionally offset by an input wire."""
 
-        def __init__(self, parent, name, pad, a=None, step=7, start=0):
+        def __init__(self, parent, name, pad, a=None, step=7, start=0, oe=None):
             super().__init__(parent, name)
             self.pad = self.addInOut('pad', pad)
             self.a = self.addIn('a', a) if a is not None else None
+            self.oe = self.addIn('oe', oe) if oe is not None else None
             self.step = step
             self.count = start
 
@@ -134,7 +135,33 @@ def classes():
             v = self.count
             if self.a is not None:
                 v += self.a.get() << 1
-            self.pad.prepare(v)
+            if self.oe is None or self.oe.get():
+                self.pad.prepare(v)
+
+    class Moore(py4hw.Logic):
+        """user-style behavioural Moore block: a leaf with BOTH clock() (next state from pre-edge wire values) and
+        propagate() (output = f(state)).  The simulator registers it as clockable and as propagatable.
+        state += gain when inc (pre-edge) is 1; state += 1 every `period` edges (free running prescaler)."""
+
+        def __init__(self, parent, name, inc, q, period=3, gain=16, start=0):
+            super().__init__(parent, name)
+            self.inc = self.addIn('inc', inc) if inc is not None else None
+            self.q = self.addOut('q', q)
+            self.period = period
+            self.gain = gain
+            self.phase = 0
+            self.state = start
+
+        def clock(self):
+            if self.inc is not None and self.inc.get():
+                self.state += self.gain
+            self.phase += 1
+            if self.phase >= self.period:
+                self.phase = 0
+                self.state += 1
+
+        def propagate(self):
+            self.q.put(self.state)
 
     class PadPut(py4hw.Logic):
         """user-style COMBINATIONAL block that drives a pad (bidirectional wire, InOut port) with put(): a*k - off,
@@ -150,7 +177,7 @@ def classes():
         def propagate(self):
             self.pad.put(self.a.get() * self.k - self.off)
 
-    _CLS.update(Box=Box, PutReg=PutReg, DoublePrepare=DoublePrepare, DoublePut=DoublePut, PadPrepare=PadPrepare, PadPut=PadPut)
+    _CLS.update(Box=Box, PutReg=PutReg, DoublePrepare=DoublePrepare, DoublePut=DoublePut, PadPrepare=PadPrepare, PadPut=PadPut, Moore=Moore)
     return _CLS
 
 
@@ -271,8 +298,10 @@ NATIVE = {
                  lambda p, par, n, a, k, s: p.BidirBuf(par, n, a['pin'], a['pout'], a['poe'], a['bidir'])),
     'DoublePrepare': (('a',), ('r',), True, False,
                       lambda p, par, n, a, k, s: classes()['DoublePrepare'](par, n, a['a'], a['r'], mode=k.get('mode', 0))),
-    'PadPrepare': (('a',), (), True, False,
-                   lambda p, par, n, a, k, s: classes()['PadPrepare'](par, n, a['pad'], a.get('a'), step=k.get('step', 7), start=k.get('start', 0))),
+    'PadPrepare': (('a', 'oe'), (), True, False,
+                   lambda p, par, n, a, k, s: classes()['PadPrepare'](par, n, a['pad'], a.get('a'), step=k.get('step', 7), start=k.get('start', 0), oe=a.get('oe'))),
+    'Moore': (('inc',), ('q',), True, False,
+              lambda p, par, n, a, k, s: classes()['Moore'](par, n, a.get('inc'), a['q'], period=k.get('period', 3), gain=k.get('gain', 16), start=k.get('start', 0))),
     'PadPut': (('a',), (), False, True,
                lambda p, par, n, a, k, s: classes()['PadPut'](par, n, a['pad'], a['a'], k=k.get('k', 3), off=k.get('off', 5))),
     'DoublePut': (('a',), ('r',), False, True,
@@ -335,11 +364,29 @@ class Built:
 
     def poke(self, values):
         for wid, v in values.items():
+            if wid.startswith('#'):
+                continue        # '#n': number of cycles of the clk() call that follows (see c04.make_hist)
             self.W[wid].put(v)
 
-    def simulator(self):
+    def simulator(self, how='get'):
+        """how: 'get'   HWSystem.getSimulator()                      (singleton accessor)
+                'direct' py4hw.simulation.Simulator(hw)               (public constructor, as test/interactive/tb_Bits.py)
+                'scope'  a py4hw.Scope added to the design, whose constructor creates the simulator and registers as listener
+                'twice'  getSimulator() called twice in a row"""
+        py4hw = P()
         with muted():
-            self.sim = self.hw.getSimulator()
+            if how == 'direct':
+                import py4hw.simulation as S
+                self.sim = S.Simulator(self.hw)
+            elif how == 'scope':
+                w = [x for x in self.W.values()][:2]
+                py4hw.Scope(self.hw, 'verif_scope', w)
+                self.sim = self.hw.simulator
+            elif how == 'twice':
+                self.hw.getSimulator()
+                self.sim = self.hw.getSimulator()
+            else:
+                self.sim = self.hw.getSimulator()
         return self.sim
 
 
@@ -928,7 +975,7 @@ def inject_cycle(plan, rnd, kind):
 
 # --------------------------------------------------------------------------- sequential designs (C05)
 
-SEQ_SHAPES = ('ring', 'shift_taps', 'counter_mem', 'fsm_regs', 'random', 'two_domains')
+SEQ_SHAPES = ('ring', 'shift_taps', 'counter_mem', 'fsm_regs', 'random', 'two_domains', 'moore', 'pad')
 
 
 def gen_seq(rnd, n_seq, shape=None, fsm=True):
@@ -1037,6 +1084,75 @@ def gen_seq(rnd, n_seq, shape=None, fsm=True):
                 cat('Not', (w, w), [src, t], scope='dom' if i % 2 else '')
                 src = t
             reg(src, qs[i], rv=rnd.randrange(1 << w), scope='dom' if i % 2 else '')
+    elif shape == 'moore':
+        # user leaves with clock() AND propagate() between library sequential blocks.  A Sequence(once) that reaches its
+        # last element and registers that catch up give edges at which NO prepared wire changes while a Moore block
+        # still changes state (its prescaler ticks).
+        w = rnd.choice([4, 8, 12])
+        nm = 1 if n_seq < 4 else rnd.randint(1, 2)
+        prev_q = None
+        left = max(1, n_seq - nm - 1)
+        for m in range(nm):
+            inc = g.wire(1)
+            vals = [rnd.getrandbits(1) for _ in range(rnd.randint(1, 4))] + [rnd.choice([0, 0, 1])]
+            if m == 0 or prev_q is None:
+                plan['blocks'].append(native_block(g.bid('s'), 'Sequence', dict(r=inc), dict(values=vals, once=rnd.random() < 0.8), ''))
+            else:
+                b0 = g.wire(1)
+                cat('Bit', (w, 0), [prev_q, b0])
+                reg(b0, inc)
+            q = g.wire(w)
+            plan['blocks'].append(native_block(g.bid('mo'), 'Moore', dict(inc=inc if rnd.random() < 0.85 else None, q=q),
+                                               dict(period=rnd.choice([1, 2, 3, 5, 8]), gain=rnd.choice([1, 3, 16]), start=rnd.randrange(1 << w)), ''))
+            src = q
+            for i in range(max(1, left // nm)):
+                if rnd.random() < 0.3:
+                    t = g.wire(w)
+                    cat('Not', (w, w), [src, t])
+                    src = t
+                nq = g.wire(w)
+                reg(src, nq, en=g.input(1) if rnd.random() < 0.2 else None)
+                src = nq
+            prev_q = src
+        rnd.shuffle(plan['blocks'])
+    elif shape == 'pad':
+        # sequential leaves that prepare() onto a bidirectional wire (registered tri-state pad / bus driver); the bus is
+        # read back through a BidirBuf that never drives it and directly by a register
+        w = rnd.choice([2, 4, 8])
+        a = g.input(rnd.choice([w, w + 3]))
+        bus = g.wire(w)
+        oe = g.input(1) if rnd.random() < 0.5 else None
+        plan['blocks'].append(native_block(g.bid('pd'), 'PadPrepare', dict(pad=bus, a=a if rnd.random() < 0.8 else None, oe=oe),
+                                           dict(step=rnd.choice([1, 3, 7, -3]), start=rnd.randrange(1 << w)), ''))
+        pin = g.wire(w)
+        z = g.wire(w)
+        z1 = g.wire(1)
+        cat('Constant', (w, 0), [z])
+        cat('Constant', (1, 0), [z1])
+        plan['blocks'].append(native_block(g.bid('bb'), 'BidirBuf', dict(pout=z, poe=z1, pin=pin, bidir=bus), {}, ''))
+        src = [pin, bus]
+        for i in range(max(1, n_seq - 1)):
+            q = g.wire(w)
+            d = src[i] if i < 2 else src[-1]
+            if rnd.random() < 0.3:
+                t = g.wire(w)
+                cat('Not', (w, w), [d, t])
+                d = t
+            reg(d, q, rv=rnd.randrange(1 << w))
+            src.append(q)
+        if n_seq >= 4 and rnd.random() < 0.5:
+            # a second pad driven from the register chain (feedback through sequential leaves only)
+            bus2 = g.wire(w)
+            plan['blocks'].append(native_block(g.bid('pd'), 'PadPrepare', dict(pad=bus2, a=src[-1], oe=None), dict(step=0, start=0), ''))
+            q = g.wire(w)
+            reg(bus2, q)
+            for x in plan['wires']:
+                if x['id'] == bus2:
+                    x['bidir'] = True
+        for x in plan['wires']:
+            if x['id'] == bus:
+                x['bidir'] = True
+        rnd.shuffle(plan['blocks'])
     else:   # random: registers / memory / sequence with a comb layer between them
         qs = []
         specs = []
